@@ -3,6 +3,7 @@ CONSTANTS
   Coins = {"acoin", "bcoin"}
   ModContracts <- MCMods2
   ExtContracts = {"x1", "x2", "x3"}
+  BonusContracts = {"xb"}
   BadContracts = {"xd", "xm"}
   Amts = {1, 2, 7}
   Start = 5
